@@ -84,6 +84,11 @@ def gen_scenario(rng, max_levels=4, max_leaves=8, n_cells=None, tree=None, dyadi
     n_cells = n_cells or rng.randrange(1, 10)
     sc.cell_ids = [f'c{x:03d}' for x in rng.sample(range(200), n_cells)]
     sc.query = np.array([[rng.randrange(0, 97) / 8.0 for _ in q] for _ in range(n_cells)], dtype=np.float64)
+    # flat cells: the same non-zero (non-dyadic) value in every gene, hence constant over every drawn subset:
+    # correlation 0 with every leaf by the constant-row convention, never NaN
+    for i in range(n_cells):
+        if rng.random() < 0.12:
+            sc.query[i, :] = rng.choice([0.7, 3.3, 0.1, 5.3, 2.9, 1.7, 0.3, 7.1, 4.6])
     sc.normalization = 'log2CPM'
     return sc
 
